@@ -56,7 +56,7 @@ func (s *Translator) prepareFilterExpression(filterExpression *cypher.FilterExpr
 		s.scope.Alias(identifier, bi)
 		if aliasedIdentifier, bound := s.scope.AliasedLookup(identifier); !bound {
 			return fmt.Errorf("filter expression must have an aliased identifier")
-		} else if s.query.CurrentPart().currentPattern.Parts != nil || s.query.CurrentPart().CurrentProjection() != nil {
+		} else if currentPattern := s.query.CurrentPart().currentPattern; (currentPattern != nil && currentPattern.Parts != nil) || s.query.CurrentPart().CurrentProjection() != nil {
 			s.query.CurrentPart().quantifierIdentifiers.Add(aliasedIdentifier.Identifier)
 		} else {
 			return fmt.Errorf("quantifiers are not supported without a pattern or projection expression")
@@ -67,6 +67,10 @@ func (s *Translator) prepareFilterExpression(filterExpression *cypher.FilterExpr
 }
 
 func (s *Translator) translateFilterExpression(filterExpression *cypher.FilterExpression) error {
+	if filterExpression.Where == nil {
+		return fmt.Errorf("quantifier expression requires a where predicate")
+	}
+
 	var (
 		currentPart = s.query.CurrentPart()
 		fromClauses = currentPart.ConsumeFromClauses()
